@@ -149,6 +149,168 @@ fn main() {
                 let n = num_messages_settled_by_disposition(nums[0] as u32, if nums[1] == 1 { Some(nums[2] as u32) } else { None });
                 format!("{{\"n\":{}}}", n)
             }
+            // send_end <9 session nums> <with_error>   /   send_begin <9 session nums>
+            "send_end" | "send_begin" => {
+                let mut s = mk_session(&nums[..9]);
+                let out = if toks[0] == "send_end" { s.send_end(nums[9] == 1) } else { s.send_begin() };
+                format!("{{\"ready\":{},\"ok\":{},\"frames\":{},{}}}", out.ready_ok.is_some(), out.ready_ok == Some(true), out.frames, counters_json(&s.counters(), sidx(s.local_state())))
+            }
+            // link_detach <link state 0..12> <has_handle> <closed> <with_error>
+            // link_send_detach <link state> <has_handle> <closed>
+            "link_detach" | "link_send_detach" => {
+                fn lstate(i: u64) -> VLinkState {
+                    match i {
+                        0 => VLinkState::Unattached,
+                        1 => VLinkState::AttachSent,
+                        2 => VLinkState::IncompleteAttachSent,
+                        3 => VLinkState::AttachReceived,
+                        4 => VLinkState::IncompleteAttachReceived,
+                        5 => VLinkState::Attached,
+                        6 => VLinkState::IncompleteAttachExchanged,
+                        7 => VLinkState::DetachSent,
+                        8 => VLinkState::DetachReceived,
+                        9 => VLinkState::Detached,
+                        10 => VLinkState::CloseSent,
+                        11 => VLinkState::CloseReceived,
+                        _ => VLinkState::Closed,
+                    }
+                }
+                fn lidx(s: &VLinkState) -> u64 {
+                    match s {
+                        VLinkState::Unattached => 0,
+                        VLinkState::AttachSent => 1,
+                        VLinkState::IncompleteAttachSent => 2,
+                        VLinkState::AttachReceived => 3,
+                        VLinkState::IncompleteAttachReceived => 4,
+                        VLinkState::Attached => 5,
+                        VLinkState::IncompleteAttachExchanged => 6,
+                        VLinkState::DetachSent => 7,
+                        VLinkState::DetachReceived => 8,
+                        VLinkState::Detached => 9,
+                        VLinkState::CloseSent => 10,
+                        VLinkState::CloseReceived => 11,
+                        VLinkState::Closed => 12,
+                    }
+                }
+                let mut l = VLink::new(lstate(nums[0]), nums[1] == 1);
+                if toks[0] == "link_detach" {
+                    let r = l.on_incoming_detach(nums[2] == 1, nums[3] == 1);
+                    format!("{{\"ok\":{},\"state\":{},\"has_handle\":{}}}", r.is_ok(), lidx(l.local_state()), l.has_output_handle())
+                } else {
+                    let out = l.send_detach(nums[2] == 1);
+                    format!("{{\"ready\":{},\"ok\":{},\"frames\":{},\"state\":{},\"has_handle\":{}}}", out.ready_ok.is_some(), out.ready_ok == Some(true), out.frames, lidx(l.local_state()), l.has_output_handle())
+                }
+            }
+            // conn_send_open <conn state 0..13> / conn_send_close <conn state> <with_error> / alloc <conn state> <channel_max> <k live sessions>
+            "conn_send_open" | "conn_send_close" | "alloc" => {
+                use fe2o3_amqp::frames::amqp::{Frame, FrameBody};
+                use fe2o3_amqp_types::performatives::{ChannelMax, MaxFrameSize, Open};
+                use fe2o3_amqp_types::states::ConnectionState as CS;
+                use std::pin::Pin;
+                use std::task::{Context, Poll};
+                struct RecSink {
+                    opens: u32,
+                    closes: u32,
+                    others: u32,
+                    close_err: bool,
+                }
+                impl futures_util::Sink<Frame> for RecSink {
+                    type Error = fe2o3_amqp::transport::Error;
+                    fn poll_ready(self: Pin<&mut Self>, _: &mut Context<'_>) -> Poll<Result<(), Self::Error>> {
+                        Poll::Ready(Ok(()))
+                    }
+                    fn start_send(mut self: Pin<&mut Self>, item: Frame) -> Result<(), Self::Error> {
+                        match &item.body {
+                            FrameBody::Open(_) => self.opens += 1,
+                            FrameBody::Close(c) => {
+                                self.closes += 1;
+                                self.close_err = c.error.is_some();
+                            }
+                            _ => self.others += 1,
+                        }
+                        Ok(())
+                    }
+                    fn poll_flush(self: Pin<&mut Self>, _: &mut Context<'_>) -> Poll<Result<(), Self::Error>> {
+                        Poll::Ready(Ok(()))
+                    }
+                    fn poll_close(self: Pin<&mut Self>, _: &mut Context<'_>) -> Poll<Result<(), Self::Error>> {
+                        Poll::Ready(Ok(()))
+                    }
+                }
+                fn cstate(i: u64) -> CS {
+                    match i {
+                        0 => CS::Start,
+                        1 => CS::HeaderReceived,
+                        2 => CS::HeaderSent,
+                        3 => CS::HeaderExchange,
+                        4 => CS::OpenPipe,
+                        5 => CS::OpenClosePipe,
+                        6 => CS::OpenReceived,
+                        7 => CS::OpenSent,
+                        8 => CS::ClosePipe,
+                        9 => CS::Opened,
+                        10 => CS::CloseReceived,
+                        11 => CS::CloseSent,
+                        12 => CS::Discarding,
+                        _ => CS::End,
+                    }
+                }
+                fn cidx(s: &CS) -> u64 {
+                    match s {
+                        CS::Start => 0,
+                        CS::HeaderReceived => 1,
+                        CS::HeaderSent => 2,
+                        CS::HeaderExchange => 3,
+                        CS::OpenPipe => 4,
+                        CS::OpenClosePipe => 5,
+                        CS::OpenReceived => 6,
+                        CS::OpenSent => 7,
+                        CS::ClosePipe => 8,
+                        CS::Opened => 9,
+                        CS::CloseReceived => 10,
+                        CS::CloseSent => 11,
+                        CS::Discarding => 12,
+                        CS::End => 13,
+                    }
+                }
+                let open = Open {
+                    container_id: String::new(),
+                    hostname: None,
+                    max_frame_size: MaxFrameSize(512),
+                    channel_max: ChannelMax(u16::MAX),
+                    idle_time_out: None,
+                    outgoing_locales: None,
+                    incoming_locales: None,
+                    offered_capabilities: None,
+                    desired_capabilities: None,
+                    properties: None,
+                };
+                let mut c = VConnection::new(cstate(nums[0]), open);
+                if toks[0] == "alloc" {
+                    c.set_agreed_channel_max(nums[1] as u16);
+                    // k live sessions on channels 0..k (allocated while the state allows it)
+                    let st = cstate(nums[0]);
+                    c.set_local_state(CS::Opened);
+                    c.set_agreed_channel_max(u16::MAX);
+                    for _ in 0..nums[2] {
+                        let _ = c.allocate_session();
+                    }
+                    c.set_local_state(st);
+                    c.set_agreed_channel_max(nums[1] as u16);
+                    let before = c.sessions();
+                    let r = c.allocate_session();
+                    format!("{{\"ok\":{},\"channel\":{},\"max_reached\":{},\"sessions_before\":{},\"sessions_after\":{}}}", r.is_ok(), r.map(|x| x as i64).unwrap_or(-1), r == Err(true), before, c.sessions())
+                } else {
+                    let mut sink = RecSink { opens: 0, closes: 0, others: 0, close_err: false };
+                    let out = if toks[0] == "conn_send_open" {
+                        poll(c.send_open(&mut sink))
+                    } else {
+                        let e = if nums[1] == 1 { Some(fe2o3_amqp_types::definitions::Error::new(fe2o3_amqp_types::definitions::AmqpError::InternalError, None, None)) } else { None };
+                        poll(c.send_close(&mut sink, e))
+                    };
+                    format!("{{\"ready\":{},\"ok\":{},\"state\":{},\"opens\":{},\"closes\":{},\"others\":{},\"close_err\":{}}}", out.is_some(), matches!(out, Some(Ok(()))), cidx(c.local_state()), sink.opens, sink.closes, sink.others, sink.close_err)
+                }
+            }
             // wakeup <pos> <credit>: one waiter with no credit, one grant of <credit> placed
             //   pos 0: before the first poll, 1: at the cfg schedule point (between the failed credit
             //   check and the creation of the wait future), 2: after the first poll returned Pending;
